@@ -287,7 +287,10 @@ func Flush() {
 	regMu.Lock()
 	defer regMu.Unlock()
 	var subs []subOut
-	hf, err := os.Create(out + ".hashes")
+	// several processes may flush to the same path (the workers of a native fuzz job): each writes its
+	// own temporary file and renames it, so that a reader never sees a torn file
+	tmpSuffix := fmt.Sprintf(".tmp-%d", os.Getpid())
+	hf, err := os.Create(out + ".hashes" + tmpSuffix)
 	if err != nil {
 		fmt.Fprintln(os.Stderr, "ev: ", err)
 		return
@@ -325,6 +328,7 @@ func Flush() {
 	}
 	bw.Flush()
 	hf.Close()
+	os.Rename(out+".hashes"+tmpSuffix, out+".hashes")
 	js, err := json.MarshalIndent(subs, "", " ")
 	if err != nil {
 		// a sample that cannot be marshalled must not lose the counts
@@ -333,7 +337,9 @@ func Flush() {
 		}
 		js, _ = json.MarshalIndent(subs, "", " ")
 	}
-	os.WriteFile(out, js, 0o644)
+	if os.WriteFile(out+tmpSuffix, js, 0o644) == nil {
+		os.Rename(out+tmpSuffix, out)
+	}
 }
 
 // Main is the TestMain body of every check package.
